@@ -17,7 +17,8 @@ The codes are RAW shapes of the object (Model: `Raw`, `decodeQI`, `decodeOp`): p
                            OnQuotaAdd / OnQuotaUpdate / OnQuotaDelete of the admitting replica right after the admission;
                            Model/C15Inf.lean `stepEcho`)
   two                     (two webhook replicas behind one API server, Model/C15Inf.lean `Sys` / `sysStep` with the
-                           unfiltered handler registration; after every request: `res`, `rep0` + dump, `rep1` + dump)
+                           unfiltered handler registration; after every request: `res`, `rep0` + dump, `rep1` + dump;
+                           `compact` and `try` work here too)
   rep <0|1>               (two-replica mode: the replica that handles the following requests)
 After every op: `res <0|1>`, then the recorded topology:
   `q <name> <parent> <isParent> <tree> <force> <treeRoot> <min>*3 <max>*3` (by name),
@@ -136,11 +137,7 @@ structure DS where
 
 /-- one raw request on one replica, with the informer echo when switched on. -/
 def stepRawE (echo : Bool) (s : Topo) (r : RawOp) : Topo × Bool :=
-  if echo then
-    match decodeOp s r with
-    | none => (s, false)
-    | some op => stepEcho dims s op
-  else stepRaw dims s r
+  if echo then stepRawEcho dims s r else stepRaw dims s r
 
 /-- one raw request handled by replica `rep` of the two-replica system (handlers registered unfiltered). -/
 def sysStepRaw (σ : Sys) (rep : Bool) (r : RawOp) : Sys × Bool :=
@@ -148,8 +145,9 @@ def sysStepRaw (σ : Sys) (rep : Bool) (r : RawOp) : Sys × Bool :=
   | none => (σ, false)
   | some op => sysStep dims (fun _ => true) σ rep op
 
-def showSys (r : Sys × Bool) : List String :=
-  s!"res {b2i r.2}" :: "rep0" :: dump r.1.a ++ "rep1" :: dump r.1.b
+def showSys (compact : Bool) (r : Sys × Bool) : List String :=
+  let ls := s!"res {b2i r.2}" :: "rep0" :: dump r.1.a ++ "rep1" :: dump r.1.b
+  if compact then [" | ".intercalate ls] else ls
 
 /-- `compact` switches to one-line dumps; `try <request>` evaluates a request on the current state
     WITHOUT committing it (the harness rebuilds the real topology from the committed prefix). -/
@@ -164,14 +162,16 @@ def runLines : DS → List String → List String
     | "try" :: rest =>
       match parseToks rest with
       | none => "bad-op" :: runLines st ls
-      | some op => showRes st.compact (stepRawE st.echo st.s op) ++ runLines st ls
+      | some op =>
+        if st.two then showSys st.compact (sysStepRaw st.sys st.rep op) ++ runLines st ls
+        else showRes st.compact (stepRawE st.echo st.s op) ++ runLines st ls
     | ts =>
       match parseToks ts with
       | none => "bad-op" :: runLines st ls
       | some op =>
         if st.two then
           let r := sysStepRaw st.sys st.rep op
-          showSys r ++ runLines { st with sys := r.1 } ls
+          showSys st.compact r ++ runLines { st with sys := r.1 } ls
         else
           let r := stepRawE st.echo st.s op
           showRes st.compact r ++ runLines { st with s := r.1 } ls
